@@ -14,14 +14,29 @@ HEADLINE = "TwistedProps.C19.body_is_rfc_body"
 RULE = ("pipelined request streams from the grammar with framing headers in every combination (Content-Length / Transfer-Encoding, "
         "duplicates, case, whitespace, obs-fold, non-numeric and huge lengths, unknown codings), request lines with every byte value "
         "in the target, bad methods/versions/separators, header-name and value bytes over 0..255, chunked bodies with size/extension/"
-        "CRLF mutations; judged by the reference parser (message by message: same request and body, next message starts where the "
+        "CRLF mutations; class `octet` (deterministic, not sampled): every octet value 0..255 at the START, in the MIDDLE and at the "
+        "END of every protocol element (method, target in origin/absolute/asterisk/authority form, version 1.1/1.0, field name, field "
+        "value, the names and values of Content-Length and Transfer-Encoding, chunk-size, chunk-ext name and quoted value, last-chunk, "
+        "trailer line) and in place of either half of every line terminator (request line, field line, end of head, chunk-size line, "
+        "after chunk data, last-chunk line, end of trailers), each followed (and one in three preceded) by a valid pipelined request "
+        "- quick tier: the nine core elements completely, the others one octet value in eight, rotating with the seed; thorough: all; "
+        "class `terminator`: LF / CR / CR CR LF / LF CR / LF LF / nothing / CR X / NUL CR LF instead of CR LF for every kind of line; "
+        "class `sizes`: chunk-size, last-chunk and Content-Length numerals with up to 1025 / 4300 leading zeros, chunk and "
+        "Content-Length bodies of 9..16385 octets (thorough: ..100001, past Request.gotLength's in-memory threshold), a body holding "
+        "40 requests; class `spelling`: VALID framing with header names and the coding name in random letter case, optional "
+        "whitespace, every method of the grammar; class `segmented`: streams of all these kinds cut into deliveries (one CR|LF, every "
+        "CR|LF, around line terminators, octet by octet, random cuts) - run through the real channel and the Lean model delivery by "
+        "delivery; judged by the reference parser (message by message: same request and body, next message starts where the "
         "reference says, 400 + close + nothing further on the first invalid message); every case also runs the Lean reference parser "
-        "(driver) against the Python one (verbatim: messages, offsets, verdict) and h11 on each message it found; "
-        "distinct = (reference verdicts, server outcome)")
+        "(driver) against the Python one (verbatim: messages, offsets, verdict) and h11 on each message it found; every case outside "
+        "class `octet` is run on two fresh connections of the same process (run_impl, then the oracle), which exposes state kept "
+        "across connections (header-name cache); distinct = (reference verdicts, server outcome)")
 ASSUMES = [
     "the resource answers every request at once (so that pipelined requests are all parsed) — hypothesis `AtOnce app` of the theorems",
-    "the whole-stream theorems are stated for the stream arriving in ONE delivery (what this check runs); independence of the "
-    "segmentation is property C18",
+    "the whole-stream theorems are stated for the stream arriving in ONE delivery; the check also cuts streams into deliveries (class "
+    "`segmented`, model-compared and oracle-judged); the theorems for an arbitrary list of deliveries are `*_segmented_partial`: they "
+    "assume `SegInvariant` = the conclusion of TwistedProps.C18.http_seg_invariant (proved in C18 without hypotheses; the two "
+    "developments cannot be imported together because of a duplicated equation lemma)",
     "where RFC 9110/9112 lets a recipient either reject or tolerate (obs-fold, bare CR/LF inside a value, other CTLs in a value, "
     "HTTP versions other than 1.0/1.1, list-valued Content-Length, codings other than a single 'chunked', size limits incl. a field "
     "line followed by an over-long line) both outcomes pass (`may` in both references; the theorems claim nothing there)",
@@ -43,9 +58,12 @@ MANIFEST = {
             "bad_framing_gets_400_and_stop (one theorem over all 16 rejection classes except te-identity: closing, 400 + loseConnection "
             "are the last things done, one request per valid message, nothing later is processed), no_extra_request_partial (PARTIAL: "
             "no extra request at end of stream / at an invalid message; the case of a stream ending inside a message is oracle-only); "
-            "te-identity counterexamples at header and stream level; header-level theorems of round 1 kept. Model tied to http.py by "
+            "te-identity counterexamples at header and stream level; header-level theorems of round 1 kept; the same three whole-stream "
+            "statements for any list of deliveries given C18's segmentation invariant (`*_segmented_partial`). Model tied to http.py by "
             "differential runs; the Lean reference tied verbatim to the Python reference and to h11 on every case; oracle = Python "
-            "reference + h11 on the real server's behaviour.",
+            "reference + h11 on the real server's behaviour. Generator audited by 14 source mutants (harness/mutants/C19): every octet "
+            "value at the start/middle/end of every protocol element and line terminator, numerals and bodies at unusual sizes, "
+            "letter-case spellings, segmented deliveries.",
     "note": "trusts Lean kernel, the hand-written channel model (differentially tied), the Lean/Python reference parsers (tied to each "
             "other and to h11), h11",
     "technique": "Lean 4 proof (whole-stream simulation of the channel model against a reference parser) + differential tie + "
@@ -248,8 +266,11 @@ _W = lambda s: s.encode().hex()
 SCRIPT = [[0, 0, [_W("ok")]]]
 
 
-def _case(stream, feats=()):
-    return {"stream": H.hx(stream), "feats": sorted(feats)}
+def _case(stream, feats=(), cuts=None):
+    c = {"stream": H.hx(stream), "feats": sorted(feats)}
+    if cuts:
+        c["cuts"] = sorted(set(int(x) for x in cuts if 0 < x < len(stream)))
+    return c
 
 
 def corpus():
@@ -292,39 +313,254 @@ def corpus():
         cs.append(_case(bad + b"GET /after HTTP/1.1\r\n\r\n", ["class-" + key]))
     for b in (0x00, 0x09, 0x20, 0x21, 0x7e, 0x80, 0xff):
         cs.append(_case(b"GET /" + bytes([b]) + b"z HTTP/1.1\r\n\r\n", ["target%02x" % b]))
-    return cs
+    # white-box mutation audit (harness/mutants/C19): one witness per former blind spot, then the fixed classes
+    te = b"POST /c HTTP/1.1\r\nTransfer-Encoding: chunked\r\n\r\n"
+    after = b"GET /after HTTP/1.1\r\n\r\n"
+    cs += [
+        _case(b"GET http://h/p\x7f HTTP/1.1\r\n\r\n" + after, ["m01", "absolute-form+bad-octet"]),
+        _case(b"GET / HTTP/1.1\n\r\nHost: h\r\n\r\n" + after, ["m02", "version+LF"]),
+        _case(b"GET / HTTP/1.1\r\nX\x7fY: v\r\n\r\n" + after, ["m03", "DEL-in-name"]),
+        _case(b"G\x7fT / HTTP/1.1\r\n\r\n" + after, ["m03", "DEL-in-method"]),
+        _case(b"POST / HTTP/1.1\r\nTransfer-Encoding: chunked\x0b\r\n\r\n3\r\nabc\r\n0\r\n\r\n" + after, ["m05", "coding+VT"]),
+        _case(b"POST / HTTP/1.1\r\ntransfer-ENCODING: chunkeD\r\n\r\n3\r\nabc\r\n0\r\n\r\n" + after, ["m06", "spelling"]),
+        _case(te + b"3;a\x7f\r\nabc\r\n0\r\n\r\n" + after, ["m07", "DEL-in-chunk-ext"]),
+        _case(te + b"3\r\nabc\n0\r\n\r\n" + after, ["m08", "LF-after-chunk-data"]),
+        _case(te + b"3\r\nabc\r\n0\r\n\r\n" + after, ["m09", "segmented"], cuts=[len(te) + 2]),
+        _case(te + b"000000003\r\nabc\r\n0\r\n\r\n" + after, ["m12", "chunk-size-zeros"]),
+    ]
+    return cs + terminator_cases() + size_cases()
+
+
+
+# ---------------------------------------------------------------------------------------------
+# class "octet": every octet value at the start / in the middle / at the end of every protocol element, and in
+# place of each half of every line terminator.  Deterministic and complete (no sampling): a check on one element
+# that is off by ONE octet value (a forgotten delimiter, DEL, a trailing LF let through by a regex `$`, a strip()
+# that eats VT/FF, ...) or that looks only at part of the element is met on every run.
+
+_TE = b"POST /c HTTP/1.1\r\nTransfer-Encoding: chunked\r\n\r\n"
+_AFTER = b"GET /after HTTP/1.1\r\n\r\n"
+_OK = b"GET /ok HTTP/1.1\r\nHost: h\r\n\r\n"
+
+# element -> (prefix, base value of the element, suffix); the stream is prefix + mutated(base) + suffix
+ELEMENTS = {
+    "method": (b"", b"GET", b" /m HTTP/1.1\r\nHost: h\r\n\r\n"),
+    "target": (b"GET ", b"/ab", b" HTTP/1.1\r\n\r\n"),
+    "target-abs": (b"GET ", b"http://h/p", b" HTTP/1.1\r\n\r\n"),
+    "target-star": (b"OPTIONS ", b"*", b" HTTP/1.1\r\n\r\n"),
+    "target-auth": (b"CONNECT ", b"h.example:80", b" HTTP/1.1\r\n\r\n"),
+    "version": (b"GET /v ", b"HTTP/1.1", b"\r\nHost: h\r\n\r\n"),
+    "version10": (b"GET /v ", b"HTTP/1.0", b"\r\n\r\n"),
+    "name": (b"GET /n HTTP/1.1\r\n", b"X-Ab", b": v\r\n\r\n"),
+    "value": (b"GET /w HTTP/1.1\r\nX-Ab: ", b"vw", b"\r\nHost: h\r\n\r\n"),
+    "cl-name": (b"POST /l HTTP/1.1\r\n", b"Content-Length", b": 3\r\n\r\nabc"),
+    "cl": (b"POST /l HTTP/1.1\r\nContent-Length: ", b"03", b"\r\n\r\nabc"),
+    "te-name": (b"POST /c HTTP/1.1\r\n", b"Transfer-Encoding", b": chunked\r\n\r\n3\r\nabc\r\n0\r\n\r\n"),
+    "te": (b"POST /c HTTP/1.1\r\nTransfer-Encoding: ", b"chunked", b"\r\n\r\n3\r\nabc\r\n0\r\n\r\n"),
+    "chunk-size": (_TE, b"03", b"\r\nabc\r\n0\r\n\r\n"),
+    "chunk-ext": (_TE + b"3;", b"ab", b"\r\nabc\r\n0\r\n\r\n"),
+    "chunk-extval": (_TE + b"3;a=\"", b"q r", b"\"\r\nabc\r\n0\r\n\r\n"),
+    "last-chunk": (_TE + b"3\r\nabc\r\n", b"0", b"\r\n\r\n"),
+    "trailer": (_TE + b"3\r\nabc\r\n0\r\n", b"T: v", b"\r\n\r\n"),
+}
+# line terminators: (prefix, suffix) around the CR LF that is tampered with
+TERMINATORS = {
+    "eol-request-line": (b"GET /t HTTP/1.1", b"Host: h\r\n\r\n"),
+    "eol-field": (b"GET /t HTTP/1.1\r\nHost: h", b"\r\n"),
+    "eol-head": (b"GET /t HTTP/1.1\r\nHost: h\r\n", b""),
+    "eol-chunk-size": (_TE + b"3", b"abc\r\n0\r\n\r\n"),
+    "eol-chunk-data": (_TE + b"3\r\nabc", b"0\r\n\r\n"),
+    "eol-last-chunk": (_TE + b"3\r\nabc\r\n0", b"\r\n"),
+    "eol-trailer": (_TE + b"3\r\nabc\r\n0\r\n", b""),
+}
+POSITIONS = ("start", "mid", "end")
+
+
+def _put(base, pos, octets):
+    if pos == "start":
+        return octets + base
+    if pos == "end":
+        return base + octets
+    h = (len(base) + 1) // 2
+    return base[:h] + octets + base[h:]
+
+
+def octet_stream(elem, pos, b, lead=False):
+    """the stream of the class `octet` for (element, position, octet value)"""
+    o = bytes([b])
+    if elem in ELEMENTS:
+        pre, base, suf = ELEMENTS[elem]
+        s = pre + _put(base, pos, o) + suf
+    else:
+        pre, suf = TERMINATORS[elem]
+        s = pre + {"start": o + b"\n", "mid": b"\r" + o + b"\n", "end": b"\r" + o}[pos] + suf
+    return (_OK if lead else b"") + s + _AFTER
+
+
+def octet_cases(keep=None):
+    """all (element, position, octet) triples, or those for which keep(element, position, octet) holds"""
+    out = []
+    i = 0
+    for elem in list(ELEMENTS) + list(TERMINATORS):
+        for pos in POSITIONS:
+            for b in range(256):
+                i += 1
+                if keep is not None and not keep(elem, pos, b):
+                    continue
+                out.append(_case(octet_stream(elem, pos, b, lead=(i % 3 == 0)), ["octet", "octet-" + elem, pos]))
+    return out
+
+
+# class "terminator": a line terminator that is not CR LF, for every kind of line
+def terminator_cases():
+    out = []
+    for elem, (pre, suf) in TERMINATORS.items():
+        for how, t in (("lf", b"\n"), ("cr", b"\r"), ("crcrlf", b"\r\r\n"), ("lfcr", b"\n\r"), ("lflf", b"\n\n"),
+                       ("crlflf", b"\r\n\n"), ("none", b""), ("crx", b"\rX"), ("nul", b"\x00\r\n")):
+            out.append(_case(pre + t + suf + _AFTER, ["terminator", elem, how]))
+            out.append(_case(_OK + pre + t + suf + _AFTER, ["terminator", elem, how]))
+    return out
+
+
+# class "sizes": legal-but-unusual numerals and lengths (leading zeros up to the line limits, multi-digit chunk sizes,
+# bodies past the in-memory threshold of Request.gotLength, a Content-Length body that holds many pipelined requests)
+def size_cases(big=False):
+    out = []
+    for z in (() if big else (1, 2, 4, 7, 8, 9, 15, 16, 17, 31, 32, 33, 64, 100, 255, 256, 500, 1000, 1019, 1020, 1021, 1022, 1023, 1024, 1025)):
+        out.append(_case(_TE + b"0" * z + b"3\r\nabc\r\n0\r\n\r\n" + _AFTER, ["sizes", "chunk-zeros%d" % z]))
+        out.append(_case(_TE + b"3\r\nabc\r\n" + b"0" * z + b"\r\n\r\n" + _AFTER, ["sizes", "last-zeros%d" % z]))
+    for z in (() if big else (1, 2, 4, 8, 16, 19, 20, 21, 64, 100, 1000, 4296, 4297, 4298, 4299, 4300)):
+        out.append(_case(b"POST /z HTTP/1.1\r\nContent-Length: " + b"0" * z + b"3\r\n\r\nabc" + _AFTER, ["sizes", "cl-zeros%d" % z]))
+        out.append(_case(b"POST /z HTTP/1.1\r\nContent-Length: " + b"0" * z + b"\r\n\r\n" + _AFTER, ["sizes", "cl-zero%d" % z]))
+    for n in ((65535, 65536, 65537, 99999, 100000, 100001) if big else (9, 10, 15, 16, 17, 255, 256, 257, 4095, 4096, 4097, 16383, 16384, 16385)):
+        data = bytes((i * 7 + 13) % 251 for i in range(n))
+        for size in (b"%x" % n, b"%X" % n):
+            out.append(_case(_TE + size + b"\r\n" + data + b"\r\n0\r\n\r\n" + _AFTER, ["sizes", "chunk%d" % n]))
+        out.append(_case(b"POST /b HTTP/1.1\r\nContent-Length: %d\r\n\r\n" % n + data + _AFTER, ["sizes", "cl%d" % n]))
+    if big:
+        return out
+    hidden = b"".join(b"GET /hidden%d HTTP/1.1\r\n\r\n" % i for i in range(40))
+    out.append(_case(b"POST /h HTTP/1.1\r\nContent-Length: %d\r\n\r\n" % len(hidden) + hidden + _AFTER, ["sizes", "smuggle"]))
+    out.append(_case(_TE + b"%x\r\n" % len(hidden) + hidden + b"\r\n0\r\n\r\n" + _AFTER, ["sizes", "smuggle"]))
+    return out
+
+
+def _randcase(rng, word):
+    return bytes(c ^ 0x20 if (65 <= c <= 90 or 97 <= c <= 122) and rng.random() < 0.5 else c for c in word)
+
+
+def gen_spelling(rng):
+    """class "spelling": framing header names and the coding name in random letter case, optional whitespace around the
+    value, every method of the grammar (incl. the bodiless ones) with each framing; all of it is VALID framing"""
+    m = rng.choice(H.METHODS)
+    t = rng.choice(H.TARGETS)
+    n = rng.choice([0, 1, 3, 7, 24])
+    body = bytes(rng.choice(b"abc\r\n GET/HTP1.:0") for _ in range(n))
+    if rng.random() < 0.3 and n >= 24:
+        body = b"GET /hidden HTTP/1.1\r\n\r\n"
+    ows = lambda: rng.choice([b"", b" ", b" ", b"\t", b"  ", b" \t"])
+    hs = [rng.choice(H.PLAIN_HEADERS) for _ in range(rng.choice([0, 1, 2]))]
+    hs = [n_ + b": " + v for n_, v in hs]
+    if rng.random() < 0.5:
+        hs.insert(rng.randrange(len(hs) + 1), _randcase(rng, b"Content-Length") + b":" + ows() + b"%d" % len(body) + ows())
+        wire = body
+    else:
+        hs.insert(rng.randrange(len(hs) + 1), _randcase(rng, b"Transfer-Encoding") + b":" + ows() + _randcase(rng, b"chunked") + ows())
+        _, wire = H.gen_chunked_body(rng, body=body)
+    return m + b" " + t + b" HTTP/1.1\r\n" + b"".join(h + b"\r\n" for h in hs) + b"\r\n" + wire
+
+
+def gen_cuts(rng, stream):
+    """class "segmented": the deliveries of a stream.  Cut points are drawn where the parsers keep state: between the CR
+    and the LF of a line terminator, just before / after one, inside a chunk-size line; or every octet on its own"""
+    n = len(stream)
+    if n < 2:
+        return []
+    crlf = [m.start() for m in re.finditer(rb"\r\n", stream)]
+    k = rng.random()
+    if k < 0.3 and crlf:
+        return [rng.choice(crlf) + 1]                                    # one CR | LF
+    if k < 0.45 and crlf:
+        return [p + 1 for p in crlf]                                     # every CR | LF
+    if k < 0.6 and crlf:
+        return sorted({p + rng.choice([0, 1, 2]) for p in rng.sample(crlf, min(len(crlf), rng.randint(1, 4)))})
+    if k < 0.7 and n <= 400:
+        return list(range(1, n))                                         # octet by octet
+    return sorted({rng.randrange(1, n) for _ in range(rng.randint(1, 5))})
+
+
+CORE_ELEMENTS = ("method", "target", "version", "name", "value", "cl", "te", "chunk-size", "chunk-ext")
+
+
+def _grammar_case(rng, i):
+    r = rng.random()
+    if r < 0.25:
+        # every byte value in the target
+        b = rng.randrange(256)
+        t = b"/" + bytes([b]) + rng.choice([b"", b"x", b"?q"])
+        return _case(rng.choice(H.METHODS) + b" " + t + b" HTTP/1.1\r\nHost: h\r\n\r\n" + (b"GET /n HTTP/1.1\r\n\r\n" if rng.random() < 0.5 else b""),
+                     ["target"])
+    if r < 0.35:
+        b = rng.randrange(256)
+        where = rng.choice(["name", "value", "method", "version"])
+        if where == "name":
+            s = b"GET / HTTP/1.1\r\nX" + bytes([b]) + b"Y: v\r\n\r\n"
+        elif where == "value":
+            s = b"GET / HTTP/1.1\r\nX: a" + bytes([b]) + b"b\r\n\r\n"
+        elif where == "method":
+            s = b"G" + bytes([b]) + b"T / HTTP/1.1\r\n\r\n"
+        else:
+            s = b"GET / HTTP/1." + bytes([b]) + b"\r\n\r\n"
+        return _case(s + b"GET /n HTTP/1.1\r\n\r\n", ["byte-" + where])
+    stream, feats = H.gen_stream(rng, malformed=0.1 if i % 2 else 0.4)
+    return _case(stream, feats)
+
+
+def _segmented_case(rng, i):
+    r = rng.random()
+    if r < 0.55:
+        stream, feats = H.gen_stream(rng, malformed=0.1 if i % 2 else 0.3)
+    elif r < 0.75:
+        stream = b"".join(gen_spelling(rng) for _ in range(rng.choice([1, 2, 3])))
+        feats = ["spelling"]
+    elif r < 0.9:
+        elem = rng.choice(list(ELEMENTS) + list(TERMINATORS))
+        stream = octet_stream(elem, rng.choice(POSITIONS), rng.randrange(256), lead=rng.random() < 0.5)
+        feats = ["octet", "octet-" + elem]
+    else:
+        c = rng.choice(_TERMINATOR_CASES)
+        stream, feats = H.unhx(c["stream"]), c["feats"]
+    return _case(stream, set(feats) | {"segmented"}, cuts=gen_cuts(rng, stream))
+
+
+_TERMINATOR_CASES = terminator_cases()
 
 
 def generate(rng, tier):
-    n = 900 if tier == "quick" else 20000
-    for i in range(n):
-        r = rng.random()
-        if r < 0.25:
-            # every byte value in the target
-            b = rng.randrange(256)
-            t = b"/" + bytes([b]) + rng.choice([b"", b"x", b"?q"])
-            yield _case(rng.choice(H.METHODS) + b" " + t + b" HTTP/1.1\r\nHost: h\r\n\r\n" + (b"GET /n HTTP/1.1\r\n\r\n" if rng.random() < 0.5 else b""),
-                        ["target"])
-        elif r < 0.35:
-            b = rng.randrange(256)
-            where = rng.choice(["name", "value", "method", "version"])
-            if where == "name":
-                s = b"GET / HTTP/1.1\r\nX" + bytes([b]) + b"Y: v\r\n\r\n"
-            elif where == "value":
-                s = b"GET / HTTP/1.1\r\nX: a" + bytes([b]) + b"b\r\n\r\n"
-            elif where == "method":
-                s = b"G" + bytes([b]) + b"T / HTTP/1.1\r\n\r\n"
-            else:
-                s = b"GET / HTTP/1." + bytes([b]) + b"\r\n\r\n"
-            yield _case(s + b"GET /n HTTP/1.1\r\n\r\n", ["byte-" + where])
-        else:
-            stream, feats = H.gen_stream(rng, malformed=0.1 if i % 2 else 0.4)
-            yield _case(stream, feats)
+    quick = tier == "quick"
+    # 1. octet class: the core elements completely, the other elements one octet value in 8 (rotating) in the quick tier
+    offset = rng.randrange(8)
+    for c in octet_cases((lambda elem, pos, b: elem in CORE_ELEMENTS or (b + offset) % 8 == 0) if quick else None):
+        yield c
+    # 2. the grammar (as before)
+    for i in range(900 if quick else 20000):
+        yield _grammar_case(rng, i)
+    # 3. valid framing in unusual spellings
+    for i in range(250 if quick else 2500):
+        n = rng.choice([1, 1, 2, 3])
+        yield _case(b"".join(gen_spelling(rng) for _ in range(n)), ["spelling"])
+    # 4. the same kinds of stream cut into deliveries
+    for i in range(500 if quick else 8000):
+        yield _segmented_case(rng, i)
+    # 5. large numerals / bodies (the smaller ones are in corpus())
+    if not quick:
+        for c in size_cases(big=True):
+            yield c
 
 
 def _ops(c):
     s = H.unhx(c["stream"])
-    return H.ops_for(s, [])
+    return H.ops_for(s, c.get("cuts") or [])
 
 
 def model_line(c):
@@ -345,10 +581,17 @@ def enc_ref(ref):
     return "ref=" + (";".join(msgs) if msgs else "none") + " stop=" + stop
 
 
+_STATE = {}      # octet class only: the run of run_impl, judged by the oracle (every other class is run a second time there)
+
+
 def run_impl(c):
     # the real server's observables, then the Python reference's reading of the same bytes: the driver line carries the
     # Lean reference's reading in the same place, so the string comparison of the tie also compares the two references
-    return H.enc_state(H.run_ops(SCRIPT, _ops(c))) + " " + enc_ref(ref_parse(H.unhx(c["stream"])))
+    st = H.run_ops(SCRIPT, _ops(c))
+    _STATE.clear()
+    if "octet" in c.get("feats", ()) and "cuts" not in c:
+        _STATE[c["stream"]] = st
+    return H.enc_state(st) + " " + enc_ref(ref_parse(H.unhx(c["stream"])))
 
 
 def _lean_ref(model_out):
@@ -408,7 +651,9 @@ def _h11_agrees(raw, method, target, headers, body):
 
 def oracle(c, out):
     stream = H.unhx(c["stream"])
-    st = H.run_ops(SCRIPT, _ops(c))
+    st = _STATE.pop(c["stream"], None) if "cuts" not in c else None
+    if st is None:
+        st = H.run_ops(SCRIPT, _ops(c))
     ref = ref_parse(stream)
     reqs = st["reqs"]
     n400 = st["written"].count(b"HTTP/1.1 400 Bad Request\r\n\r\n")
@@ -468,14 +713,28 @@ def tag(c, out):
     verdict = ",".join(i[0] if i[0] != "bad" else "bad:" + i[1] for i in ref[:5])
     closed = out[7:8] if out.startswith("closed=") else "?"
     nreq = 0 if "reqs=none" in out else out.split("reqs=")[1].count(";") + 1 if "reqs=" in out else -1
-    return f"{verdict}|c{closed}|r{min(nreq, 4)}|" + ",".join(f for f in c.get("feats", []) if f.startswith(("byte-", "target")))[:20]
+    return f"{verdict}|c{closed}|r{min(nreq, 4)}|" + ",".join(f for f in c.get("feats", []) if f.startswith(("byte-", "target", "octet-", "segmented", "spelling", "terminator", "sizes")))[:40]
 
 
 def shrink(c):
     s = H.unhx(c["stream"])
     n = len(s)
+    cuts = c.get("cuts") or []
+    if cuts:
+        yield {k: v for k, v in c.items() if k != "cuts"}
+        if len(cuts) > 1:
+            for x in cuts:
+                yield dict(c, cuts=[x])
+            yield dict(c, cuts=cuts[:len(cuts) // 2])
+            yield dict(c, cuts=cuts[len(cuts) // 2:])
     for size in (n // 2, n // 4, 16, 4, 1):
         if size < 1:
             continue
         for i in range(0, n, size):
-            yield dict(c, stream=H.hx(s[:i] + s[i + size:]))
+            t = s[:i] + s[i + size:]
+            d = dict(c, stream=H.hx(t))
+            if cuts:
+                d["cuts"] = sorted({x if x <= i else max(i, x - size) for x in cuts} - {0} - set(range(len(t), n + 1)))
+                if not d["cuts"]:
+                    del d["cuts"]
+            yield d
